@@ -530,6 +530,9 @@ func c02Body(d c02Desc, tier string) func() {
 			fmt.Sscanf(d.Seq[0], "%d", &na)
 			fmt.Sscanf(d.Seq[1], "%d", &nb)
 			fillFrame := func(b []byte) (string, string) {
+				if len(b) == 0 {
+					return "", "no message arrived (the message that was stuck in a blocked write never reached the peer whole)"
+				}
 				if _, p := streamOK(b); p != "" {
 					return "", p
 				}
@@ -552,6 +555,12 @@ func c02Body(d c02Desc, tier string) func() {
 				ca, _ := l.Dial("a")
 				ca.Peer().Cap = -1 // the service's writes to A block
 				ca.Write([]byte(fmt.Sprintf(`{"method":"t.f.Fill","parameters":{"n":%d,"ch":"a"}}`+"\x00", na)))
+				// time passes while A's reply is stuck: whatever write deadline is in force (the serving context has none) expires
+				vsched.GoDaemon("clock", func() {
+					sa := ca.Peer()
+					vsched.Yield("clock", "K", func() bool { return sa.WriteCalls >= 1 && sa.WrArmed() })
+					sa.FireDeadline()
+				})
 				vsched.Yield("wait-A-stuck", "H", func() bool { return ca.Peer().WriteCalls >= 1 })
 				cb, _ := l.Dial("b")
 				connB := varlink.VerifNewConnection(cb)
@@ -585,6 +594,10 @@ func c02Body(d c02Desc, tier string) func() {
 				vsched.GoDaemon("A", func() {
 					connA.Send(live, "t.f.Fill", map[string]interface{}{"n": na, "ch": "a", "p": strings.Repeat("a", na)}, varlink.Oneway)
 					sentA = true
+				})
+				vsched.GoDaemon("clock", func() {
+					vsched.Yield("clock", "K", func() bool { return ma.WriteCalls >= 1 && ma.WrArmed() })
+					ma.FireDeadline()
 				})
 				vsched.Yield("wait-A-stuck", "H", func() bool { return ma.WriteCalls >= 1 })
 				if _, err := connB.Send(live, "t.f.Fill", map[string]interface{}{"n": nb, "ch": "b", "p": strings.Repeat("b", nb)}, varlink.Oneway); err != nil {
